@@ -174,52 +174,71 @@ def features(prog, pred):
     return f
 
 
-def run_and_compare(prog, pred, text=None, flags=None, ordered=False, rules=None):
-    """Evaluate pred with the reference and with the compiler+SQLite.
-    Returns (status, bucket, detail, info) where status in
-    ok | fail | inconclusive."""
-    text = text or model.print_program(prog)
+def reference(prog, pred, budget=150000):
+    """-> (status, cols, rows, info); status ok | ref_too_big | ref_ambiguous |
+    result_too_large."""
     info = {}
     try:
-        ev = ref.Evaluator(prog, budget=150000)
+        ev = ref.Evaluator(prog, budget=budget)
         cols, exp = expected_rows(ev, prog, pred)
     except ref.TooBig:
-        return 'inconclusive', 'ref_too_big', '', info
+        return 'ref_too_big', None, None, info
     except ref.Ambiguous:
-        return 'inconclusive', 'ref_ambiguous', '', info
+        return 'ref_ambiguous', None, None, info
     info['n_exp'] = len(exp)
     if len(exp) > MAX_ROWS:
-        return 'inconclusive', 'result_too_large', '', info
+        return 'result_too_large', None, None, info
     info['dups'] = len(exp) != len(set(map(repr, exp)))
+    return 'ok', cols, exp, info
+
+
+def compiled_vs(cols, exp, text, pred, rules=None, flags=None, ordered=False,
+                quirk_prog=None, info=None):
+    """Compile `pred` of program text with the real pipeline, run on SQLite, compare
+    with the expected (cols, rows).  -> (status, bucket, detail)."""
+    info = info if info is not None else {}
     try:
         if rules is None:
             rules = drive.parse_rules(text)
         hdr, rows, sql = drive.run(text, pred, flags, rules=rules)
     except drive.Interrupted:
-        return 'inconclusive', 'sqlite_budget', '', info
+        return 'inconclusive', 'sqlite_budget', ''
     except drive.DIAGNOSTICS as e:
         msg = first_line(e)
         return 'fail', 'rejected_valid:%s:%s' % (type(e).__name__, msg_class(msg)), \
             'compiler refused a valid program: %s\n%s\n--- predicate %s\n%s' % (
-                type(e).__name__, msg, pred, text), info
+                type(e).__name__, msg, pred, text)
     except Exception as e:
         return 'fail', 'internal:' + drive.exc_frame(e), \
-            '%s\n--- predicate %s\n%s' % (traceback.format_exc()[-1500:], pred, text), info
-    info['sql_len'] = len(sql)
+            '%s\n--- predicate %s\n%s' % (traceback.format_exc()[-1500:], pred, text)
+    info['sql'] = sql
     if hdr != cols and not (not cols and len(hdr) == 1):
         return 'fail', 'columns_differ', 'expected columns %r got %r\n--- predicate %s\n%s' % (
-            cols, hdr, pred, text), info
+            cols, hdr, pred, text)
     if not cols:
         rows = [() for _ in rows]
     d = canon.rows_match(exp, rows, ordered=ordered)
     if d is not None:
         bucket = 'rows_differ'
-        q = attribute_to_quirks(prog, pred, rows, ordered)
-        if q:
-            bucket = 'rows_differ:quirk:' + '+'.join(q)
+        if quirk_prog is not None:
+            q = attribute_to_quirks(quirk_prog, pred, rows, ordered)
+            if q:
+                bucket = 'rows_differ:quirk:' + '+'.join(q)
         return 'fail', bucket, '%s\nexpected %r\nactual   %r\n--- predicate %s\n%s' % (
-            d, sorted(map(repr, exp))[:12], sorted(map(repr, rows))[:12], pred, text), info
-    return 'ok', None, '', info
+            d, sorted(map(repr, exp))[:12], sorted(map(repr, rows))[:12], pred, text)
+    return 'ok', None, ''
+
+
+def run_and_compare(prog, pred, text=None, flags=None, ordered=False, rules=None):
+    """Evaluate pred with the reference and with the compiler+SQLite.
+    Returns (status, bucket, detail, info), status in ok | fail | inconclusive."""
+    text = text or model.print_program(prog)
+    st, cols, exp, info = reference(prog, pred)
+    if st != 'ok':
+        return 'inconclusive', st, '', info
+    st, bucket, detail = compiled_vs(cols, exp, text, pred, rules, flags, ordered,
+                                     quirk_prog=prog, info=info)
+    return st, bucket, detail, info
 
 
 def attribute_to_quirks(prog, pred, rows, ordered):
